@@ -25,6 +25,10 @@ def assigned_paths(f, st):
     """paths (re)assigned by statement st"""
     k = st["k"]
     out = []
+    if k == "BinaryOperator" and st.get("inl_init"):
+        lhs = f.children(st)[0] if f.children(st) else None
+        if lhs is not None and lhs["k"] == "MemberExpr" and lhs["m"].get("ftype", "").rstrip().endswith("&"):
+            return []       # binding a reference member in an inlined constructor assigns nothing
     if k in ("BinaryOperator", "CompoundAssignOperator") and (st["op"] == "=" or k == "CompoundAssignOperator"):
         out.append(path(f, f.children(st)[0]))
     elif k == "CXXOperatorCallExpr" and st.get("op") in ("=", "++", "--", "+=", "-="):
